@@ -434,7 +434,7 @@ func drawC14Cfg(t *rapid.T) c14CfgCase {
 	prof := []gen.Profile{gen.Small, gen.CondHeavy, gen.CondHeavy, gen.NamesOnly}[rapid.IntRange(0, 3).Draw(t, "profile")]
 	p := gen.Policy(t, "x86_64", gen.Opts{Profile: prof, MaxInsns: 3500, NamedActionsOnly: true})
 	return c14CfgCase{Policy: p, Seed: rapid.Uint64().Draw(t, "seed"),
-		Path: []string{"writer", "writer", "yaml-marshal", "json-marshal"}[rapid.IntRange(0, 3).Draw(t, "path")]}
+		Path: []string{"writer", "writer", "yaml-marshal", "json-marshal", "writer-extra-keys"}[rapid.IntRange(0, 4).Draw(t, "path")]}
 }
 
 func assembleHost(p *seccomp.Policy) (insts []bpf.Instruction, err error, pan any) {
@@ -465,6 +465,13 @@ func checkC14Cfg(raw json.RawMessage) (ev.Result, error) {
 	switch c.Path {
 	case "writer":
 		text = []byte(cfgwriter.YAML(&p, c.Seed))
+	case "writer-extra-keys":
+		// the same text with keys outside the documented dialect in the group mappings (arch: i386, comment: ...): the text
+		// is refused (no claim), or it denotes the policy it denotes without them
+		text = []byte(cfgwriter.YAMLExtra(&p, c.Seed, func(gi int) string { return c15ExtraKey(c.Seed|1, gi) }))
+		if _, lerr := loadLikeSandbox(text); lerr != nil {
+			return ev.Result{Classes: []string{"cfg:keys-outside-the-dialect-refused(no-claim)"}}, nil
+		}
 	case "yaml-marshal":
 		text, err = yaml.Marshal(struct {
 			Seccomp *seccomp.Policy `yaml:"seccomp"`
